@@ -66,6 +66,8 @@ func (c Counter) String() string             { return "" }
 func Rec(tag, typeID string, v interface{})  {}
 func RecN(vs ...interface{})                 {}
 func HInc(x int) int                         { return x }
+func Done()                                  {}
+func Wait()                                  {}
 func NewWriter() *Writer                     { return nil }
 func NewCounter(n int) *Counter              { return nil }
 func NewHolder(n int) Holder                 { return Holder{} }
